@@ -101,8 +101,56 @@ template<int H> void run_first_explicit(const char* hn) {
 #endif
   report(std::string(hn) + ".first-activation-by-explicit-entry", ids && seen, "C03,C09,C13", "A=" + std::to_string(cur(s,0)) + " B=" + std::to_string(cur(s,1)) + " introspection-agrees=" + std::to_string(seen));
 }
+// three levels: a history submachine whose active substate is itself a submachine, entered by a plain transition - every entry behaviour
+// (machine, nested machine, leaf) runs exactly once per entry, outermost first (C02, C07, C08).  Not under back11 (three levels do not compile).
+#if !defined(CFG_back11)
+static std::string g_elog;
+struct Inner_ : state_machine_def<Inner_> {
+  struct Leaf : state<> { template<class E,class F> void on_entry(E const&,F&){ g_elog += "Leaf "; } template<class E,class F> void on_exit(E const&,F&){ g_elog += "~Leaf "; } };
+  typedef Leaf initial_state;
+  struct transition_table : mpl::vector<> {};
+  template<class E,class F> void on_entry(E const&,F&){ g_elog += "Inner "; } template<class E,class F> void on_exit(E const&,F&){ g_elog += "~Inner "; }
+  template<class F,class Ev> void no_transition(Ev const&,F&,int){}
+};
+typedef BE<Inner_> Inner;
+template<int H> struct Mid_ : state_machine_def<Mid_<H>> {
+  typedef Inner initial_state;
+  struct transition_table : mpl::vector<> {};
+#if IS_MP11
+  using history = typename std::conditional<H==H_NO, msm::front::no_history, typename std::conditional<H==H_ALWAYS, msm::front::always_shallow_history, msm::front::shallow_history<resume, resume_x>>::type>::type;
+#endif
+  template<class E,class F> void on_entry(E const&,F&){ g_elog += "Mid "; } template<class E,class F> void on_exit(E const&,F&){ g_elog += "~Mid "; }
+  template<class F,class Ev> void no_transition(Ev const&,F&,int){}
+};
+#if IS_MP11
+template<int H> using MidBE = BE<Mid_<H>>;
+#else
+template<int H> using MidBE = msm::back::state_machine<Mid_<H>, typename std::conditional<H==H_NO, msm::back::NoHistory, typename std::conditional<H==H_ALWAYS, msm::back::AlwaysHistory, msm::back::ShallowHistory<mpl::vector<resume, resume_x>>>::type>::type>;
+#endif
+template<int H> struct Top3_ : state_machine_def<Top3_<H>> {
+  typedef MidBE<H> Mid; struct Out3 : state<> {};
+  typedef Out3 initial_state;
+  struct transition_table : mpl::vector< Row<Out3,resume,Mid,none,none>, Row<Out3,plain,Mid,none,none>, Row<Mid,leave,Out3,none,none> > {};
+  template<class F,class Ev> void no_transition(Ev const&,F&,int){}
+};
+template<int H> void run_nested(const char* hn) {
+  typedef BE<Top3_<H>> Top;
+  for (int hist_event = 0; hist_event < 2; ++hist_event) {
+    Top m; m.start(); std::string all;
+    for (int round = 0; round < 2; ++round) {
+      g_elog.clear(); if (hist_event) m.process_event(resume()); else m.process_event(plain()); all += g_elog + "| ";
+      g_elog.clear(); m.process_event(leave()); all += g_elog + "| ";
+    }
+    const std::string want = "Mid Inner Leaf | ~Leaf ~Inner ~Mid | Mid Inner Leaf | ~Leaf ~Inner ~Mid | ";
+    report(std::string(hn) + ".nested-submachine-below-history." + (hist_event ? "history-event" : "plain-event"), all == want, "C02,C07,C08,C03", "log=[" + all + "] expected=[" + want + "]");
+  }
+}
+#endif
 int main(int argc, char** argv) {
   if (argc > 1) g_only = argv[1];
+#if !defined(CFG_back11)
+  run_nested<H_NO>("no"); run_nested<H_ALWAYS>("always"); run_nested<H_SHALLOW>("shallow");
+#endif
   run<H_NO>("no"); run<H_ALWAYS>("always"); run<H_SHALLOW>("shallow");
   run_first<H_NO>("no"); run_first<H_ALWAYS>("always"); run_first<H_SHALLOW>("shallow");
   run_first_explicit<H_NO>("no"); run_first_explicit<H_ALWAYS>("always"); run_first_explicit<H_SHALLOW>("shallow");
